@@ -12,6 +12,7 @@ def step (_ : Unit) (toks : List String) : Unit × String :=
   | "aesctr" :: _ :: _ :: _ :: _ => ((), "freed zero")
   | ["dh", _, _, _, _] => ((), "clean")
   | ["readkeys", _, _] => ((), "clean")
+  | ["memzero", _, _] => ((), "memzero exact")
   | _ => ((), "bad-op")
 
 def main (_args : List String) : IO UInt32 := loop () step
